@@ -84,7 +84,7 @@ fn one(drv: &mut Drv, rep: &mut Report, ci: u64, pred: bool, w: u32, h: u32, dat
         other => { rep.disagree(Disagreement { case: line.clone(), got: format!("libwebp: {:?}", other.map(|(a, b, c)| (a, b, c == expect_px))), expected: "the input pixels".into(), class: "violation", obligation: "C04: the produced stream decodes with libwebp to exactly the input pixels".into(), detail: family.into() }); return; }
     }
     // tie 2 (only for images the Lean side handles quickly)
-    if w * h <= 1600 {
+    if w * h <= 1600 || family == "deep_codes_all_channels+model" {
         let reply = drv.ask(&line);
         let model_hex = reply.strip_prefix("ok ").and_then(|r| r.split(" S=").next()).unwrap_or("");
         if model_hex != hex(&got) {
@@ -103,7 +103,7 @@ pub fn run(o: &Opts) -> Report {
         one(&mut drv, &mut rep, p[1].parse().unwrap(), p[2] == "1", p[3].parse().unwrap(), p[4].parse().unwrap(), &unhex(p[5]), "replay");
         return rep;
     }
-    rep.rule = "images: 4 colour types x predictor on/off x sizes {1x1, 1xN, Nx1, 2..40 square-ish, 16384x1, 1x16384, 9000x2 (runs beyond 4096)} x content families (uniform noise, constant, runs of exactly 1..6/17/4095/4096/4097/8193, two colours, gradients, Fibonacci-skewed histograms forcing the 15-bit limit, three values, extremes, single code length); encode_frame output decoded by this crate's decoder and by libwebp (must equal the input) and compared byte for byte with Enc.encodeFrame, whose output the Lean specification decoder must also turn back into the input; dimensions 0 and 16385 must give InvalidDimensions; WebPEncoder::encode with metadata read back through the public decoder. distinct_nontrivial = distinct images with more than one pixel".into();
+    rep.rule = "images: 4 colour types x predictor on/off x sizes {1x1, 1xN, Nx1, 2..40 square-ish, 16384x1, 1x16384, 9000x2 (runs beyond 4096)} x content families (uniform noise, constant, runs of exactly 1..6/17/4095/4096/4097/8193, two colours, gradients, Fibonacci-skewed histograms forcing the 15-bit limit, 20/21 pixel kinds in Fibonacci counts with identical depth in all four channels and no adjacent equal pixels (packed writes of 57..60 bits), three values, extremes, single code length); encode_frame output decoded by this crate's decoder and by libwebp (must equal the input) and compared byte for byte with Enc.encodeFrame, whose output the Lean specification decoder must also turn back into the input; dimensions 0 and 16385 must give InvalidDimensions; WebPEncoder::encode with metadata read back through the public decoder. distinct_nontrivial = distinct images with more than one pixel".into();
     let mut rng = Rng::new(o.seed ^ 0xC04);
     let n = if o.thorough() { 3000 } else { 420 };
     for i in 0..n {
@@ -125,6 +125,39 @@ pub fn run(o: &Opts) -> Report {
             rep.sample(json!({"color": color_of(ci).3, "w": w, "h": h, "family": fname}));
         }
         one(&mut drv, &mut rep, ci, (i / 4) % 2 == 0, w, h, &data, fname);
+    }
+    // deep codes in all channels at once: Fibonacci pixel-kind counts (20 / 21 kinds => 15-bit
+    // codes), arranged with a stride so that equal pixels are never adjacent (no run tokens, the
+    // histograms are exactly Fibonacci); every channel of a pixel carries a symbol of the same
+    // depth, so the packed multi-code writes reach 57..60 bits at every bit alignment
+    for (k, &(kinds, w, h)) in [(20usize, 154u32, 115u32), (21, 199, 144), (20, 115, 154), (19, 149, 73)].iter().enumerate() {
+        for variant in 0..(if o.thorough() { 8u64 } else { 3 }) {
+            let mut counts = vec![1usize, 1];
+            while counts.len() < kinds { let m = counts.len(); counts.push(counts[m - 1] + counts[m - 2]); }
+            let total: usize = counts.iter().sum();
+            let n = (w * h) as usize;
+            let mut sorted: Vec<u8> = Vec::new();
+            for (kind, &c) in counts.iter().enumerate() { sorted.extend(std::iter::repeat(kind as u8).take(c)); }
+            while sorted.len() < n { sorted.push(0); }
+            sorted.truncate(n);
+            let _ = total;
+            let biggest = *counts.last().unwrap();
+            let gcd = |mut a: usize, mut b: usize| { while b != 0 { let t = a % b; a = b; b = t; } a };
+            let mut stride = biggest + 1 + rng.below((n - 2 * biggest - 2).max(1) as u64) as usize;
+            while gcd(stride, n) != 1 { stride += 1; }
+            let order: Vec<u8> = (0..n).map(|p| sorted[p * stride % n]).collect();
+            for ci in [3u64, 2, 1, 0] {
+                if ci != 3 && variant > 0 { continue; }
+                let (_, bpp, _, _) = color_of(ci);
+                let data: Vec<u8> = order.iter().enumerate().flat_map(|(i, &kd)| {
+                    let a = if variant % 2 == 1 && kd as usize == kinds - 1 && i % 4 == 0 { kd + 1 } else { kd };
+                    let v = [2 * kd + variant as u8 / 2, kd, 2 * kd, a];
+                    match bpp { 4 => v.to_vec(), 3 => v[..3].to_vec(), 2 => vec![kd, a], _ => vec![kd] }
+                }).collect();
+                let tie = o.thorough() || (k == 3 && variant == 0 && ci == 3);
+                one(&mut drv, &mut rep, ci, (variant + k as u64) % 3 == 2, w, h, &data, if tie { "deep_codes_all_channels+model" } else { "deep_codes_all_channels" });
+            }
+        }
     }
     // dimension rejection
     for (w, h) in [(0u32, 1u32), (1, 0), (0, 0), (16385, 1), (1, 16385), (20000, 1)] {
